@@ -156,6 +156,44 @@ pub fn new_boxed<T: MaybeDynSized<Metadata = usize> + ?Sized>(header: T::Header,
     unimplemented!()
 }
 
+// ---------------------------------------------------------------------------
+// C16 (clone clause), proved for ALL sizes and generically for every structure kind T from
+// the assumed contract of new_boxed above and the proved contracts of header() / payload() /
+// Header::payload_len: the clone has the same header (so: the same declared size) and the
+// same bytes up to the declared size.  Hypotheses (stated, per kind): the header's Clone is
+// the derived one (returns an equal value) and set_size with the header's own size is the
+// identity (true for TagHeader / HeaderTagHeader / BootInformationHeader; for the basic
+// multiboot2 header only when its checksum is valid, because set_size recomputes it).
+// ---------------------------------------------------------------------------
+//@extract multiboot2-common/src/boxed.rs :: fn clone_dyn
+//@  ret r
+//@  sigrewrite /\(tag: &T\) -> \(r: Box<T>\)/ => /(tag: &T) -> (r: Box<T>) where T::Header: HeaderSetSize + Clone/
+//@  rewrite /new_boxed\(tag\.header\(\)\.clone\(\), &\[&tag\.payload\(\)\[\.\.(\w+)\]\]\)/ => /{ let hr = tag.header(); let h = hr.clone(); proof { assert(vstd::pervasive::cloned(*hr, h)); assert(h == clone_src_hdr(tag)); } let pl: &[u8] = vslice(tag.payload(), 0, \1); let parts: [&[u8]; 1] = [pl]; proof { assert(parts@ =~= Seq::<&[u8]>::empty().push(pl)); broadcast use lemma_concat_push, lemma_concat_empty; assert(concat_slices(parts@) =~= pl@); assert(size_of::<T::Header>() + pl@.len() == clone_src_hdr(tag).declared_total()); } new_boxed(h, parts.as_slice()) }/
+//@  prologue proof { clone_src_hdr(tag).lemma_hdr_layout(); }
+//@  spec:
+//@    requires
+//@        panics_allowed(),
+//@        tag_wf(tag),
+//@        // the tag is consistent (what cast() and new_boxed establish): in-memory size = declared size rounded up to 8
+//@        val_size(tag) as int == round8(clone_src_hdr(tag).declared_total()),
+//@        forall|a: T::Header, b: T::Header| vstd::pervasive::cloned(a, b) ==> a == b,
+//@        clone_src_hdr(tag).spec_set_size(clone_src_hdr(tag).declared_total()) == clone_src_hdr(tag),
+//@    ensures
+//@        tag_wf(&*r),
+//@        clone_src_hdr(tag).declared_total() >= size_of::<T::Header>(),
+//@        // same header (type, declared size, every other header field), same padded size
+//@        clone_src_hdr(&*r) == clone_src_hdr(tag),
+//@        val_size(&*r) == val_size(tag),
+//@        // same bytes up to the declared size
+//@        obj_bytes(&*r).subrange(size_of::<T::Header>() as int, clone_src_hdr(tag).declared_total())
+//@            == obj_bytes(tag).subrange(size_of::<T::Header>() as int, clone_src_hdr(tag).declared_total()),
+//@end
+
+/// the header stored at the start of a structure
+pub open spec fn clone_src_hdr<T: MaybeDynSized + ?Sized>(t: &T) -> T::Header {
+    decode::<T::Header>(mem_at(ref_prov(t), ref_addr(t) as int, size_of::<T::Header>() as int))
+}
+
 /// Every reference safe Rust hands out points to an aligned, dereferenceable
 /// value of size_of_val bytes (type-system guarantee, trusted).
 #[verifier::external_body]
